@@ -186,12 +186,50 @@ func rowS(in strIn) (map[string]interface{}, error) {
 	return o, nil
 }
 
+type strsIn struct {
+	S []string `json:"s"`
+	T []string `json:"t"`
+	U []string `json:"u"`
+}
+
+// comparison of arbitrary strings: what Equal says and the keys ForLookup returns
+// (whatever its error), the same for the domain functions
+func rowP(in strsIn, three bool) (map[string]interface{}, error) {
+	s, err := concretise(in.S)
+	if err != nil {
+		return nil, err
+	}
+	t, err := concretise(in.T)
+	if err != nil {
+		return nil, err
+	}
+	if three {
+		u, err := concretise(in.U)
+		if err != nil {
+			return nil, err
+		}
+		return map[string]interface{}{
+			"eq12": address.Equal(s, t), "eq23": address.Equal(t, u), "eq13": address.Equal(s, u),
+			"deq12": dns.Equal(s, t), "deq23": dns.Equal(t, u), "deq13": dns.Equal(s, u),
+		}, nil
+	}
+	k1, _ := address.ForLookup(s)
+	k2, _ := address.ForLookup(t)
+	dk1, _ := dns.ForLookup(s)
+	dk2, _ := dns.ForLookup(t)
+	return map[string]interface{}{
+		"eq12": address.Equal(s, t), "eq21": address.Equal(t, s), "k1": tokens(k1), "k2": tokens(k2),
+		"deq12": dns.Equal(s, t), "deq21": dns.Equal(t, s), "dk1": tokens(dk1), "dk2": tokens(dk2),
+	}, nil
+}
+
 func TestReplay(t *testing.T) {
 	in, out := os.Getenv("VERIF_IN"), os.Getenv("VERIF_OUT")
 	if in == "" || out == "" {
 		t.Skip("VERIF_IN / VERIF_OUT not set")
 	}
 	tb := mustTable()
+	mustLowerSym()
 	f, err := os.Open(in)
 	if err != nil {
 		t.Fatal(err)
@@ -213,7 +251,13 @@ func TestReplay(t *testing.T) {
 			t.Fatalf("bad case line: %v", err)
 		}
 		var o map[string]interface{}
-		if c.Kind == "S" {
+		if c.Kind == "P2" || c.Kind == "P3" {
+			var pi strsIn
+			if err := json.Unmarshal(c.Raw, &pi); err != nil {
+				t.Fatalf("case %d: %v", c.ID, err)
+			}
+			o, err = rowP(pi, c.Kind == "P3")
+		} else if c.Kind == "S" {
 			var si strIn
 			if err := json.Unmarshal(c.Raw, &si); err != nil {
 				t.Fatalf("case %d: %v", c.ID, err)
